@@ -76,6 +76,9 @@ def resolve_call(prog, fi, node, self_classes=None):
                 return out, 'self'
         r = prog.resolve_name_expr(m, f)
         if r and r[0] == 'func':
+            if r[1].is_method:
+                # Class.method(obj, ...): self is passed explicitly
+                return [r[1]], 'unbound'
             return [r[1]], 'dotted'
         if r and r[0] == 'class':
             init = prog.lookup_method(r[1], '__init__')
@@ -114,14 +117,15 @@ def reachable(prog, roots, within=None):
     return seen
 
 
-def conformance(callee, node):
+def conformance(callee, node, how=''):
     """Does the call supply the callee's required parameters and only known
     keywords?  -> None when fine, else a message.  Calls with * / ** are
     checked for keywords only (literal-keyed ** dicts are handled by the
     caller)."""
     a = callee.node.args
     pos = [p.arg for p in a.posonlyargs + a.args]
-    if callee.is_method or (callee.cls is not None and callee.parent is None):
+    if (callee.is_method or (callee.cls is not None and
+                             callee.parent is None)) and how != 'unbound':
         if pos and pos[0] in ('self', 'cls'):
             pos = pos[1:]
     ndef = len(a.defaults)
@@ -148,3 +152,108 @@ def conformance(callee, node):
         if k in pos[:npos]:
             return 'argument %r given twice' % k
     return None
+
+
+# ---------------------------------------------------------------------------
+# receiver typing (DESIGN 1.4): self.X = Cls(...), class-valued class
+# attributes, one level of parameter typing from constructor call sites, and a
+# small frozen table for framework-provided attributes.
+
+FROZEN_RECEIVERS = {
+    # (class, attribute) -> (class qualname, reason, supporting text that must
+    # still exist in the class's module)
+    ('bus.BusProtocol', 'bus'): (
+        'bus.Bus', 'set from the factory (self.factory.bus) when the '
+        'connection authenticates', 'self.bus = self.factory.bus'),
+}
+
+
+class TypeEnv:
+    def __init__(self, prog):
+        self.prog = prog
+        self.attr = {}       # (class qualname, attr) -> set(ClassInfo)
+        self._param = {}     # (func qualname, param) -> set(ClassInfo)
+        # pass 1: constructor call sites type __init__ parameters
+        for fi in prog.all_funcs.values():
+            for n in iter_calls(fi):
+                r = prog.resolve_name_expr(fi.module, n.func) \
+                    if isinstance(n.func, (ast.Name, ast.Attribute)) else None
+                if not r or r[0] != 'class':
+                    continue
+                init = prog.lookup_method(r[1], '__init__')
+                if init is None:
+                    continue
+                ps = init.params()[1:]
+                for p_, a in zip(ps, n.args):
+                    if isinstance(a, ast.Name) and a.id == 'self' and \
+                            fi.cls is not None:
+                        for sc in prog.subclasses(fi.cls):
+                            self._param.setdefault(
+                                (init.qualname, p_), set()).add(sc)
+        # pass 2: self.X = <expr> in methods
+        for c in prog.all_classes.values():
+            for name, v in c.attrs.items():
+                r = prog.resolve_name_expr(c.module, v)
+                if r and r[0] == 'class':
+                    self.attr.setdefault((c.qualname, name), set()).add(r[1])
+            for fi in c.methods.values():
+                for n in prog._iter_scope(fi.node):
+                    if isinstance(n, ast.Assign) and len(n.targets) == 1 \
+                            and isinstance(n.targets[0], ast.Attribute) and \
+                            isinstance(n.targets[0].value, ast.Name) and \
+                            n.targets[0].value.id == 'self':
+                        a = n.targets[0].attr
+                        v = n.value
+                        if isinstance(v, ast.Call):
+                            r = prog.resolve_name_expr(c.module, v.func) \
+                                if isinstance(v.func, (ast.Name,
+                                                       ast.Attribute)) \
+                                else None
+                            if r and r[0] == 'class':
+                                self.attr.setdefault(
+                                    (c.qualname, a), set()).add(r[1])
+                        elif isinstance(v, ast.Name):
+                            for t in self._param.get((fi.qualname, v.id),
+                                                     ()):
+                                self.attr.setdefault(
+                                    (c.qualname, a), set()).add(t)
+        for (cq, a), (tq, reason, text) in FROZEN_RECEIVERS.items():
+            c = prog.all_classes.get(cq)
+            t = prog.all_classes.get(tq)
+            if c is None or t is None or text not in c.module.src:
+                raise AnalysisError(
+                    'frozen receiver entry %s.%s -> %s lost its supporting '
+                    'assignment (%r)' % (cq, a, tq, text))
+            self.attr.setdefault((cq, a), set()).add(t)
+
+    def types_of(self, fi, expr):
+        """Classes an attribute-chain expression rooted at self may have."""
+        if isinstance(expr, ast.Name) and expr.id == 'self' and fi.cls:
+            return set(self.prog.subclasses(fi.cls))
+        if isinstance(expr, ast.Attribute):
+            out = set()
+            for c in self.types_of(fi, expr.value):
+                for k in self.prog.mro(c):
+                    out |= self.attr.get((k.qualname, expr.attr), set())
+            return out
+        return set()
+
+
+def typed_edges(prog, tenv, fi):
+    """Resolved edges of attribute calls whose receiver is typed through
+    TypeEnv (in addition to edges_from)."""
+    out = []
+    for n in iter_calls(fi):
+        f = n.func
+        if not isinstance(f, ast.Attribute):
+            continue
+        if isinstance(f.value, ast.Name):
+            continue          # self.m / module.f: handled by edges_from
+        targets = []
+        for c in tenv.types_of(fi, f.value):
+            t = prog.lookup_method(c, f.attr)
+            if t is not None and t not in targets:
+                targets.append(t)
+        if targets:
+            out.append(CallSite(fi, n, targets, 'typed'))
+    return out
